@@ -100,7 +100,11 @@ func (t *tracker) check(s *lstore.Store, T lstore.Obj, where string) {
 	}
 }
 
-func seqBody(g lstore.Geometry, depth int) func() {
+func seqBody(g lstore.Geometry, depth int) func() { return seqBodyF(g, depth, false) }
+
+// seqBodyF: with allocFail the partial upload of the alphabet is replaced by a block-sized upload during which the
+// allocator refuses to hand out a block (a resource condition: the upload may fail, nothing else may change).
+func seqBodyF(g lstore.Geometry, depth int, allocFail bool) func() {
 	return func() {
 		med := lstore.NewMedia(g)
 		s := lstore.Open(g, med)
@@ -129,8 +133,16 @@ func seqBody(g lstore.Geometry, depth int) func() {
 			case 1:
 				small++
 				o := mk(g, "S", 2000+small, 3+small%2*2)
+				if allocFail {
+					o = mk(g, "X", 3000+small, 8)
+					s.Alloc.FailNext = true
+				}
 				err := s.PutOK(o.Digest, o.Content)
+				s.Alloc.FailNext = false
 				vsched.Obs("S=%s", status.Code(err))
+				if allocFail && err != nil && status.Code(err) != codes.Unavailable {
+					failf("upload-error-"+status.Code(err).String(), "upload during which the allocator refused a block failed with %v", err)
+				}
 				if err == nil {
 					lastUpload = &o
 				}
@@ -606,6 +618,19 @@ func main() {
 						}
 						scs = append(scs, mc.Scenario{Name: fmt.Sprintf("seq/h%v-m%v-o%dc%dn%d", hier, mut, o, c, n), Group: "seq", Bound: 0, Body: seqBody(g, depth)})
 					}
+				}
+			}
+		}
+	}
+	mc.GroupSpace["seq-allocfail"] = fmt.Sprintf("per geometry (old,current,new) in {1,2}x{1,2}x{1} x {immutable,mutable policy} x {flat,hierarchical}, block-device blocks: all 5^%d sequences over {block-sized upload, block-sized upload during which the allocator refuses a block, upload of T, Get T, FindMissing batch}: a failed allocation is not an allocation - T survives until old_blocks+1 blocks were really allocated", depth)
+	for _, hier := range []bool{false, true} {
+		for _, mut := range []bool{false, true} {
+			for o := 1; o <= 2; o++ {
+				for c := 1; c <= 2; c++ {
+					g := base
+					g.Old, g.Current, g.New, g.Mutable, g.Hierarchical = o, c, 1, mut, hier
+					g.AC = mut && !hier
+					scs = append(scs, mc.Scenario{Name: fmt.Sprintf("seq-allocfail/h%v-m%v-o%dc%dn1", hier, mut, o, c), Group: "seq-allocfail", Bound: 0, Body: seqBodyF(g, depth, true)})
 				}
 			}
 		}
